@@ -375,14 +375,39 @@ Definition served (fq : Z -> Z -> Z) (c : calls) (name : bytes) (r : request) : 
    Served name (rep_part c name ++ ver_part r ++ fp ++ cod_part r' ++ cmp_part r' ++ check_tls r' ++
                 check_method r' ++ trl_part r') t r').
 
+(* the entry phase alone: everything but the trailers line *)
+Definition entered (fq : Z -> Z -> Z) (c : calls) (name : bytes) (r : request) : calls * outcome :=
+  let '(t, fp, r') := pro_part fq r in
+  (bump c name,
+   Served name (rep_part c name ++ ver_part r ++ fp ++ cod_part r' ++ cmp_part r' ++ check_tls r' ++
+                check_method r') t r').
+
+Lemma enter_eq fq c r :
+  enter fq c r = match name_of r with [] => (c, Rejected) | _ => entered fq c (name_of r) r end.
+Proof.
+  unfold enter, entered, pro_part, name_of, first.
+  destruct (hd [] (x_name r)) as [|n nm]; [reflexivity|].
+  unfold rep_part, ver_part, cod_part, cmp_part.
+  destruct (enum_value _ (x_protocol r) c12_protocols) as [[p|] f]; [|reflexivity].
+  destruct (extract_timeout fq p r) as [[t ft] r']. reflexivity.
+Qed.
+
+Lemma served_entered fq c name r :
+  served fq c name r =
+  match entered fq c name r with
+  | (c', Served n f t r') => (c', Served n (f ++ leave r') t r')
+  | (c', Rejected) => (c', Rejected)
+  end.
+Proof.
+  unfold served, entered. destruct (pro_part fq r) as [[t fp] r'].
+  unfold leave, trl_part. rewrite <- !app_assoc. reflexivity.
+Qed.
+
 Lemma checks_eq fq c r :
   checks fq c r = match name_of r with [] => (c, Rejected) | _ => served fq c (name_of r) r end.
 Proof.
-  unfold checks, served, pro_part, name_of, first.
-  destruct (hd [] (x_name r)) as [|n nm]; [reflexivity|].
-  unfold rep_part, ver_part, cod_part, cmp_part, trl_part.
-  destruct (enum_value _ (x_protocol r) c12_protocols) as [[p|] f]; [|reflexivity].
-  destruct (extract_timeout fq p r) as [[t ft] r']. reflexivity.
+  unfold checks. rewrite enter_eq. destruct (name_of r) as [|n nm]; [reflexivity|].
+  rewrite served_entered. reflexivity.
 Qed.
 
 (* ---------- where each kind of line can come from ---------- *)
@@ -606,7 +631,7 @@ Proof.
   - intros [P ->]. left. rewrite (proj2 (Z.ltb_lt _ _)) by exact P. left. reflexivity.
 Qed.
 
-Lemma repeat_flagged_proof : forall fq history r later m,
+Lemma repeat_flagged_sequential_proof : forall fq history r later m,
   name_of r <> [] ->
   In (KRepeat m) (feedback_of (nth (length history) (run_seq fq [] (history ++ r :: later)) Rejected)) <->
   0 < seen_before (name_of r) history /\ m = seen_before (name_of r) history + 1.
@@ -1003,3 +1028,201 @@ End Handled.
 (* the exact quotient, which the extracted model uses, is one of the admissible conversions *)
 Lemma float_quot_ok_exact : float_quot_ok Z.quot.
 Proof. intros t u _. split; [rewrite Z.sub_diag; cbn; lia|reflexivity]. Qed.
+
+(* ====================================================================== *)
+(* I. entry and exit of referenceServerChecks; overlapping requests       *)
+(* ====================================================================== *)
+Lemma enter_checks fq c r :
+  match enter fq c r with
+  | (c', Served n f t r') => checks fq c r = (c', Served n (f ++ leave r') t r')
+  | (c', Rejected) => checks fq c r = (c', Rejected)
+  end.
+Proof. unfold checks. destruct (enter fq c r) as [c' [|n f t r']]; reflexivity. Qed.
+
+Lemma enter_named fq c r : name_of r <> [] ->
+  exists f t r', enter fq c r = (bump c (name_of r), Served (name_of r) f t r') /\ same_but_timeout r r'.
+Proof.
+  intros NE. rewrite enter_eq. destruct (name_of r) as [|n nm] eqn:E; [congruence|]. unfold entered.
+  destruct (pro_part_shape fq r) as (t & fa & ft & r' & E' & _ & _ & SB). rewrite E'. eauto.
+Qed.
+
+Lemma enter_nameless fq c r : name_of r = [] -> enter fq c r = (c, Rejected).
+Proof. intros E. rewrite enter_eq, E. reflexivity. Qed.
+
+Lemma leave_only_trailers r k : In k (leave r) -> k = KTrailers (trailer_keys r) /\ 0 < trailer_keys r.
+Proof.
+  unfold leave. destruct (Z.ltb_spec 0 (trailer_keys r)); [|intros []].
+  intros [<-|[]]. split; [reflexivity|assumption].
+Qed.
+
+Lemma enter_repeat fq c r m : name_of r <> [] ->
+  In (KRepeat m) (feedback_of (snd (enter fq c r))) <->
+  0 < count_of c (name_of r) /\ m = count_of c (name_of r) + 1.
+Proof.
+  intros NE. rewrite <- (repeat_in_checks fq c r m NE).
+  destruct (enter_named fq c r NE) as (f & t & r' & E & _).
+  pose proof (enter_checks fq c r) as C. rewrite E in C. rewrite E, C. cbn [snd feedback_of].
+  rewrite in_app_iff. split; [auto|]. intros [H|H]; [exact H|].
+  apply leave_only_trailers in H. destruct H as [H _]. discriminate.
+Qed.
+
+Fixpoint state_after (fq : Z -> Z -> Z) (s : hstate) (es : list event) : hstate :=
+  match es with [] => s | e :: es' => state_after fq (fst (step fq s e)) es' end.
+
+Lemma run_events_nth fq : forall history s e later,
+  nth (length history) (run_events fq s (history ++ e :: later)) OIdle = snd (step fq (state_after fq s history) e).
+Proof.
+  induction history as [|h hs IH]; intros s e later; cbn [app run_events state_after length nth].
+  - destruct (step fq s e). reflexivity.
+  - destruct (step fq s h) as [s' o] eqn:E. cbn [nth fst]. apply IH.
+Qed.
+
+Lemma step_begin fq s r :
+  step fq s (EvBegin r) =
+  ({| h_calls := fst (enter fq (h_calls s) r);
+      h_open := h_open s ++ [match snd (enter fq (h_calls s) r) with Served _ _ _ r' => Some r' | Rejected => None end] |},
+   OBegin (snd (enter fq (h_calls s) r))).
+Proof. cbn [step]. destruct (enter fq (h_calls s) r). reflexivity. Qed.
+
+Lemma step_end_calls fq s i : h_calls (fst (step fq s (EvEnd i))) = h_calls s.
+Proof. cbn [step]. destruct (nth_error (h_open s) i) as [[r'|]|]; reflexivity. Qed.
+
+Lemma calls_after_events fq name : name <> [] -> forall history s,
+  count_of (h_calls (state_after fq s history)) name = count_of (h_calls s) name + begun_before name history.
+Proof.
+  intros NE. induction history as [|[r|i] hs IH]; intros s; cbn [state_after begun_before]; [lia| |].
+  - rewrite IH, step_begin. cbn [fst h_calls].
+    destruct (name_of r) as [|n nm] eqn:E.
+    + rewrite enter_nameless by exact E. cbn [fst]. destruct (bytes_eqb_spec name []); [congruence|lia].
+    + destruct (enter_named fq (h_calls s) r) as (f & t & r' & -> & _); [congruence|]. cbn [fst].
+      rewrite count_bump, E. lia.
+  - rewrite IH, step_end_calls. reflexivity.
+Qed.
+
+Lemma repeat_flagged_proof : forall fq history r later m,
+  name_of r <> [] ->
+  In (KRepeat m) (written (nth (length history) (run_events fq h_init (history ++ EvBegin r :: later)) OIdle)) <->
+  0 < begun_before (name_of r) history /\ m = begun_before (name_of r) history + 1.
+Proof.
+  intros fq history r later m NE. rewrite run_events_nth, step_begin. cbn [snd written].
+  rewrite enter_repeat by exact NE. rewrite calls_after_events by exact NE.
+  cbn [h_init h_calls count_of]. rewrite Z.add_0_l. reflexivity.
+Qed.
+
+(* nothing but the trailers line is written when a request ends *)
+Lemma end_writes_trailers_only_proof : forall fq history i later k,
+  In k (written (nth (length history) (run_events fq h_init (history ++ EvEnd i :: later)) OIdle)) ->
+  exists n, k = KTrailers n /\ 0 < n.
+Proof.
+  intros fq history i later k. rewrite run_events_nth. cbn [step].
+  destruct (nth_error (h_open (state_after fq h_init history)) i) as [[r'|]|]; cbn [snd written]; try (intros []).
+  intros H. apply leave_only_trailers in H. destruct H as [-> P]. eauto.
+Qed.
+
+Lemma nth_error_last {A} (l : list A) x : nth_error (l ++ [x]) (length l) = Some x.
+Proof. induction l; cbn; auto. Qed.
+
+(* a request that begins and ends with nothing in between writes exactly what `checks` says *)
+Lemma begin_end_is_checks_proof : forall fq s r,
+  concat (map written (run_events fq s [EvBegin r; EvEnd (length (h_open s))])) =
+  feedback_of (snd (checks fq (h_calls s) r)).
+Proof.
+  intros fq s r. cbn [run_events]. rewrite step_begin.
+  pose proof (enter_checks fq (h_calls s) r) as C.
+  destruct (enter fq (h_calls s) r) as [c' [|n f t r']]; rewrite C; cbn [step snd fst h_open h_calls];
+    rewrite nth_error_last; cbn [map written concat feedback_of snd].
+  - reflexivity.
+  - rewrite app_nil_r. reflexivity.
+Qed.
+
+(* ====================================================================== *)
+(* J. the assembled server (createServer)                                 *)
+(* ====================================================================== *)
+Lemma workaround_version p r : bidi_workaround p r = set_proto_major r (handler_version p (proto_major r)).
+Proof.
+  destruct r. unfold bidi_workaround, handler_version, set_proto_major. cbn.
+  destruct p; cbn; try reflexivity. destruct (_ =? 1); reflexivity.
+Qed.
+
+Lemma server_feedback fq c p r : feedback_of (snd (server fq c p r)) = feedback_of (snd (checks fq c r)).
+Proof. unfold server. destruct (checks fq c r) as [c' [|n f t r']]; reflexivity. Qed.
+
+Lemma checks_same_version fq c r n f t r' : snd (checks fq c r) = Served n f t r' -> proto_major r' = proto_major r.
+Proof.
+  intros E. destruct (name_of r) as [|x nm] eqn:N.
+  - destruct (no_name_rejected_proof fq c r) as [R _]. rewrite R in E by exact N. discriminate.
+  - rewrite checks_served in E by congruence.
+    destruct (served_shape fq c (name_of r) r) as (t0 & fa & ft & fb' & r0 & S & _ & _ & _ & SB).
+    rewrite S in E. cbn [snd] in E. inversion E; subst. destruct SB as [->|[->| ->]]; reflexivity.
+Qed.
+
+Lemma bidi_exemption_scope_proof : forall fq c p r,
+  fst (server fq c p r) = fst (checks fq c r) /\
+  match snd (checks fq c r) with
+  | Rejected => snd (server fq c p r) = Rejected
+  | Served n f t r' => snd (server fq c p r) = Served n f t (set_proto_major r' (handler_version p (proto_major r)))
+  end.
+Proof.
+  intros fq c p r. pose proof (checks_same_version fq c r) as V. unfold server.
+  destruct (checks fq c r) as [c' [|n f t r']]; cbn [fst snd] in *; split; try reflexivity.
+  rewrite workaround_version, (V n f t r' eq_refl). reflexivity.
+Qed.
+
+Lemma bidi_served_over_http1_proof : forall fq c p r n f t seen,
+  1 <= proto_major r -> snd (server fq c p r) = Served n f t seen -> handler_refuses p seen = false.
+Proof.
+  intros fq c p r n f t seen P E. destruct (bidi_exemption_scope_proof fq c p r) as [_ S].
+  destruct (snd (checks fq c r)) as [|n0 f0 t0 r0]; rewrite S in E; [discriminate|]. inversion E; subst.
+  unfold handler_refuses, handler_version. destruct p; cbn; try reflexivity.
+  destruct (Z.eqb_spec (proto_major r) 1); cbn; [reflexivity|]. apply Z.ltb_ge. lia.
+Qed.
+
+Section ServerMatrix.
+Variables (fq : Z -> Z -> Z) (name : bytes) (e : axes) (a : actual) (p : procedure).
+Hypothesis name_given : name <> [].
+
+Lemma server_feedback_exact_proof :
+  server fq [] p (with_expect name e (render a)) =
+  ([(name, 1)], Served name (expected_feedback e (project a)) None
+                       (set_proto_major (with_expect name e (render a)) (handler_version p (version_num (c_version a))))).
+Proof.
+  unfold server. rewrite matrix_feedback_exact_proof by exact name_given. rewrite workaround_version. reflexivity.
+Qed.
+
+Let feedback := feedback_of (snd (server fq [] p (with_expect name e (render a)))).
+
+Lemma server_feedback_is : feedback = expected_feedback e (project a).
+Proof. unfold feedback. rewrite server_feedback_exact_proof. reflexivity. Qed.
+
+Lemma server_silent_iff_match_proof : feedback = [] <-> project a = e.
+Proof. rewrite server_feedback_is. apply expected_feedback_nil. Qed.
+
+Lemma server_names_each_aspect_proof : forall A,
+  deviates A e (project a) <-> exists k, In k feedback /\ aspect_of k = Some A.
+Proof. intros A. rewrite server_feedback_is. symmetry. apply expected_asp. Qed.
+
+Lemma server_only_deviations_named_proof : forall k,
+  In k feedback -> exists A, aspect_of k = Some A /\ deviates A e (project a).
+Proof.
+  intros k. rewrite server_feedback_is. intros I.
+  pose proof (expected_all_aspect e (project a)) as H. rewrite forallb_forall in H.
+  specialize (H k I). unfold has_aspect in H. destruct (aspect_of k) as [A|] eqn:E; [|discriminate].
+  exists A. split; [reflexivity|]. apply expected_asp. exists k. auto.
+Qed.
+End ServerMatrix.
+
+(* the other order of composition - workaround first, checks second - would break both directions *)
+Definition mk_axes v := {| a_version := v; a_get := false; a_protocol := PConnect; a_codec := CProto;
+                           a_compression := ZIdentity; a_tls := Plain |}.
+Definition mk_actual v := {| c_version := v; c_shape := ConnectStream; c_codec := CProto;
+                             c_compression := ZIdentity; c_tls := Plain |}.
+Lemma workaround_outside_refuted_proof : forall fq,
+  (exists e a, project a = e /\
+     feedback_of (snd (checks fq [] (bidi_workaround ProcBidiStream (with_expect (lit "t") e (render a))))) <> []) /\
+  (exists e a, project a <> e /\
+     feedback_of (snd (checks fq [] (bidi_workaround ProcBidiStream (with_expect (lit "t") e (render a))))) = []).
+Proof.
+  intros fq. split.
+  - exists (mk_axes V1), (mk_actual V1). split; [reflexivity|]. vm_compute. discriminate.
+  - exists (mk_axes V2), (mk_actual V1). split; [discriminate|]. vm_compute. reflexivity.
+Qed.
